@@ -142,6 +142,13 @@ def _reparse_raw_stmtlike(self: fst.FST, new_lines: list[str], ln: int, col: int
     if is_elif := stmtlike.is_elif():
         stmtlike = stmtlike.parent  # there must be a parent otherwise it cannot be an `elif`
 
+    elif (stmtlike.a.__class__ is ExceptHandler
+          and (parent := stmtlike.parent)
+          and parent.a.__class__ in (Try, TryStar)
+          and (ln, col) < stmtlike._loc_block_header_end()[2:]
+    ):  # change touches the handler header, 'except' vs. 'except*' decides between `Try` and `TryStar` for ALL the handlers so the whole statement needs to be reparsed
+        stmtlike = parent
+
     pln, pcol, pend_ln, pend_col = stmtlike.bloc
 
     root = self.root
